@@ -61,7 +61,7 @@ theorem zero_arg_operator_absorbs_nothing (skip : List Str) (tol : Bool) (m : Mo
     (hf : 3 * (rest.length + 2) + 1 ≤ f) :
     readExpr f skip tol m (esc :: name :: rest) = .ok (.cmd (strip name.text) [] [] esc.pos, rest) := by
   have hwf : WF skip m (win rest) (.cmd esc name [] [] [] []) = true := by
-    simp [WF, hesc, hni, hnb, WFa, hsig, runOK]
+    simp [WF, hesc, hni, hnb, WFa, hsig, runOK, tight]
   have h := readExpr_complete _ skip tol m rest f hwf (by simp [toks]; omega)
   simpa [toks, tree] using h
 
